@@ -112,12 +112,13 @@ def _closure(rel_files):
             continue
         seen.append(f)
         txt = re.sub(r'\(\*.*?\*\)', '', open(p).read(), flags=re.S)
-        for m in re.finditer(r'From\s+Circ\s+Require\s+(?:Import\s+|Export\s+)?([^.]*(?:\.[A-Za-z_][\w.]*)*[^.]*)\.\s', txt):
+        for m in re.finditer(r'From\s+Circ\s+Require\s+(?:Import\s+|Export\s+)?(.*?)\.(?=\s)', txt, flags=re.S):
             for mod in m.group(1).split():
                 todo.append(mod.replace('.', '/') + '.v')
-        for m in re.finditer(r'Require\s+(?:Import\s+|Export\s+)?((?:Circ\.[\w.]+\s*)+)\.\s', txt):
+        for m in re.finditer(r'(?<!Circ\s)Require\s+(?:Import\s+|Export\s+)?(.*?)\.(?=\s)', txt, flags=re.S):
             for mod in m.group(1).split():
-                todo.append(mod[len('Circ.'):].replace('.', '/') + '.v')
+                if mod.startswith('Circ.'):
+                    todo.append(mod[len('Circ.'):].replace('.', '/') + '.v')
     return sorted(seen)
 
 
